@@ -40,6 +40,12 @@ enum Exp {
     /// the exact endpoints under an ADVERSARIAL stream (boundary words 0, MAX, ...): close probability 0 never
     /// yields a close marker, 1 always does; Bitstring probability 0 / 1 likewise; flip rate 0 / 1 likewise
     Endpoints { which: u8 },
+    /// UMAD through the OTHER constructors on a non-empty parent: ctor 1 = new_with_empty_rate(add, empty, del),
+    /// 2 = new_without_empty(add, del); the empty-genome rate must play no part here
+    UmadCtor { ctor: u8, add: f64, empty: f64, del: f64, len: usize },
+    /// a whole Plushy genome drawn from a collection generator around the gene generator (by value / by
+    /// reference): close markers at the first position, at the last position and overall
+    PlushyGen { n: usize, len: usize, close: Option<f32>, by_ref: bool },
 }
 
 #[derive(Serialize, Deserialize, Clone, Debug)]
@@ -112,6 +118,14 @@ fn experiments() -> Vec<Exp> {
     }
     for which in 0..6u8 {
         v.push(Exp::Endpoints { which });
+    }
+    for (ctor, add, empty, del) in [(1u8, 0.3, 0.9, 0.1), (1, 0.5, 0.0, 0.25), (1, 0.2, 0.6, 0.0), (2, 0.3, 0.0, 0.1), (2, 0.9, 0.0, 0.3)] {
+        for len in [1usize, 20] {
+            v.push(Exp::UmadCtor { ctor, add, empty, del, len });
+        }
+    }
+    for (n, len, close, by_ref) in [(3usize, 1usize, None, false), (3, 8, None, true), (1, 5, None, false), (5, 40, Some(0.5f32), false), (2, 3, Some(0.9), true)] {
+        v.push(Exp::PlushyGen { n, len, close, by_ref });
     }
     for n in [1usize, 2, 3, 5, 8] {
         v.push(Exp::Gene { source: 3, n, close: None });
@@ -244,6 +258,63 @@ fn run_experiment(exp: &Exp, trials: u64, seed: u64) -> Option<Vec<Cell_>> {
                 cell("child == [old,new]".into(), trials, patterns[3], (1.0 - del) * q);
             }
             let _ = size;
+        }
+        Exp::UmadCtor { ctor, add, empty, del, len } => {
+            let len = *len;
+            let umad = if *ctor == 1 {
+                Umad::new_with_empty_rate(*add, *empty, *del, NewGenes(Cell::new(0)))
+            } else {
+                Umad::new_without_empty(*add, *del, NewGenes(Cell::new(0)))
+            };
+            let (mut kept, mut news) = (0u64, 0u64);
+            for _ in 0..trials {
+                let parent: Vector<u32> = (0..len as u32).collect();
+                let child = umad.mutate(parent, &mut rng).ok()?.genes;
+                let k = child.iter().filter(|g| **g < 1_000_000).count() as u64;
+                kept += k;
+                news += child.len() as u64 - k;
+            }
+            cell("old gene survives".into(), trials * len as u64, kept, 1.0 - del);
+            cell("new gene after a parent position".into(), trials * len as u64, news, add * (1.0 - del));
+        }
+        Exp::PlushyGen { n, len, close, by_ref } => {
+            use ec_core::distributions::collection::ConvertToCollectionGenerator;
+            use push::genome::plushy::Plushy;
+            let (n, len) = (*n, *len);
+            let items: Vec<PushInstruction> = (0..n).map(instr).collect();
+            let c = match close {
+                Some(c) => f64::from(*c),
+                None => 1.0 / (n as f64 + 1.0),
+            };
+            let d = IntoDistribution::<PushInstruction>::into_distribution(items).ok()?;
+            let gg = match close {
+                Some(c) => d.into_gene_generator_with_close_probability(*c),
+                None => d.into_gene_generator(),
+            };
+            let trials = if len > 8 { trials / 4 } else { trials };
+            fn tally<D: Distribution<Plushy>>(cg: &D, len: usize, trials: u64, rng: &mut FastRng) -> Option<(u64, u64, u64)> {
+                let (mut first, mut last, mut all) = (0u64, 0u64, 0u64);
+                let is_close = |g: &PushGene| matches!(g, PushGene::Close);
+                for _ in 0..trials {
+                    let p: Plushy = cg.sample(rng);
+                    let genes = p.get_genes();
+                    if genes.len() != len {
+                        return None;
+                    }
+                    first += u64::from(is_close(&genes[0]));
+                    last += u64::from(is_close(&genes[len - 1]));
+                    all += genes.iter().filter(|g| is_close(g)).count() as u64;
+                }
+                Some((first, last, all))
+            }
+            let (first, last, all) = if *by_ref {
+                tally(&gg.to_collection_generator(len), len, trials, &mut rng)?
+            } else {
+                tally(&gg.into_collection_generator(len), len, trials, &mut rng)?
+            };
+            cell("first gene of a generated Plushy is a close marker".into(), trials, first, c);
+            cell("last gene of a generated Plushy is a close marker".into(), trials, last, c);
+            cell("gene of a generated Plushy is a close marker (all positions)".into(), trials * len as u64, all, c);
         }
         Exp::UmadEmpty { ctor, add, empty } => {
             let (p, umad) = match ctor {
@@ -516,7 +587,8 @@ impl Check for C12 {
                 let family = match &sc.exp {
                     Exp::Flip { rate: Some(_), .. } => "flip-rate",
                     Exp::Flip { rate: None, .. } => "one-over-length-rate",
-                    Exp::Umad { .. } => "umad-rates",
+                    Exp::Umad { .. } | Exp::UmadCtor { .. } => "umad-rates",
+                    Exp::PlushyGen { .. } => "plushy-close-probability",
                     Exp::UmadEmpty { .. } => "umad-empty-rate",
                     Exp::Uniform { .. } => "uniform-crossover-half",
                     Exp::RandomBits { .. } => "random-bit-probability",
